@@ -21,6 +21,17 @@ NA = {
 PENDING = "static rule designed in DESIGN section 3; check not yet registered (under construction)"
 
 CHECKS = {
+ "C08": {
+  "text": "Static comparison of the writer's length-class table, recovered from MIR as a guard chain plus symbolic byte "
+          "expressions of the atom size (shifts/masks/ors only, hence exactly checkable on single-bit sizes and boundaries), with "
+          "the format's closed form; every stream read of the reader is length-checked before use with the mismatch edge "
+          "returning only errors; reader limit = writer's last threshold; literal classes mirror; pairs written marker-first-"
+          "rest. Decides these structural clauses for every atom length at once (tests only sample lengths).",
+  "note": "Not decided: byte-identity with clvmr::serde for all atoms and acceptance-set equality with the consensus "
+          "deserialiser. A table-driven rewrite of the writer is reported as anchor-lost (accepted cost, stated in DESIGN).",
+  "technique": "MIR symbolic expression recovery + closed-form comparison + dominance rules",
+  "design": "3.8",
+ },
  "C13": {
   "text": "Four value-provenance obligations decided over MIR on every path: add_defun hashes value.code, stores the same value, "
           "keys the symbol by that hash and maps it to the function's own name/arguments; codegen_ hands add_defun the unchanged "
